@@ -9,11 +9,11 @@ HOOKS = {
 }
 
 ENGINES_DOC = [
-    {"name": "spec", "path": "spec/", "serves_properties": ["C12", "C13", "C14", "C15", "C16"],
+    {"name": "spec", "path": "spec/", "serves_properties": ["C03", "C12", "C13", "C14", "C15", "C16"],
      "kind_free_text": "TLA+ modules (single source of truth) checked with TLC"},
-    {"name": "harness", "path": "harness/", "serves_properties": ["C12", "C13", "C14", "C15", "C16"],
+    {"name": "harness", "path": "harness/", "serves_properties": ["C03", "C12", "C13", "C14", "C15", "C16"],
      "kind_free_text": "Rust conformance harness: replays TLC-generated behaviours on the real code, records traces/rows for TLC to judge"},
-    {"name": "orchestrator", "path": "bin/check", "serves_properties": ["C12", "C13", "C14", "C15", "C16"],
+    {"name": "orchestrator", "path": "bin/check", "serves_properties": ["C03", "C12", "C13", "C14", "C15", "C16"],
      "kind_free_text": "python3 driver: build, TLC, replay/validation, evidence, exit code"},
 ]
 
@@ -61,8 +61,18 @@ CHECKS.update({
     },
 })
 
+CHECKS.update({
+    "C03": {
+        "engine": "spec",
+        "text": "Mnemonic.tla states the short/long-form and default-1 suffix rule declaratively (and TLC checks that a lock-step scan with an `optional' latch decides the same relation). TLC enumerates every candidate string up to a bounded length over 9 bytes against 12 definitions with the expected verdicts, replayed on mnemonic_compare / mnemonic_match / Token::match_program_header; directed (every prefix x case x suffix spelling, all single-edit neighbours) and random rows on ~170 SCPI-shaped definitions up to 12 characters are judged by TLC as an iff.",
+        "design_ref": "DESIGN.md 3 C03",
+        "note": "Definitions are of SCPI shape; keyword comparison (mnemonic_compare) is judged only for mnemonics without numeric suffix, for which it is defined.",
+        "technique": "TLA+ relation specification; bounded-exhaustive enumeration by TLC replayed on the code + row validation by TLC",
+    },
+})
+
 NOT_APPLICABLE = [
     {"property_id": p, "reason": "check under construction in this round (see DESIGN.md 6, construction order); not yet claimed"}
-    for p in ["C01", "C02", "C03", "C04", "C05", "C06", "C07", "C08", "C09", "C10", "C11",
+    for p in ["C01", "C02", "C04", "C05", "C06", "C07", "C08", "C09", "C10", "C11",
               "C17", "C18", "C19", "C20"]
 ]
